@@ -13,7 +13,7 @@ from ..contract import contract, same_meta, same_start, assert_start, bits_equal
 
 ASSUMPTIONS = [
     "reference = explicit longdouble DFT matrix (N <= 128) or numpy.fft in complex128 (large-N sub-check); bins follow numpy.fft.fftfreq",
-    "data tolerance 2e-6*(1+log2 N)*max|x|: the library deliberately casts its phase ramp to complex64 (6e-8 relative per bin)",
+    "data tolerance 2e-6*(1+log2 N)*max|x| for single-precision data (complex64 ramp and transforms, 6e-8 per bin) and 2e-15*(8+|s|)*(1+log2 N)*max|x| for double-precision data",
     "non-zero shifts are >= 2^-20 samples in magnitude: |shift| <= 1e-8 is the documented allclose 'no shift' fast path",
     "shifts given as time Quantities come back as samples through float conversions: when within 1e-9 relative of a whole "
     "sample the single boundary sample is unconstrained (either neighbour of the ceiling is accepted)",
@@ -126,7 +126,10 @@ def check_shift(z, x, y, eff, fuzz, use_ld, what="time_shift"):
         ref = ref.real
     out = np.asarray(y.data)
     scale = float(np.max(np.abs(x))) if x.size else 0.0
-    tol = 2e-6 * (1 + math.log2(max(N, 2))) * scale
+    # single-precision data: the ramp and both transforms are complex64 (6e-8 per bin); double-precision data: complex128 throughout, and the
+    # ramp's argument 2 pi s f carries eps * |s| of rounding
+    smax = float(np.max(np.abs(sb))) if np.size(sb) else 0.0
+    tol = (2e-6 if x.dtype.itemsize <= (8 if np.iscomplexobj(x) else 4) else 2e-15 * (8 + min(smax, 4 * N))) * (1 + math.log2(max(N, 2))) * scale
     worst = 0.0
     for ix in np.ndindex(ss):
         s = float(sb[ix])
